@@ -138,3 +138,18 @@ Theorem C07_oracle_is_the_model : forall pa k ctr blocks eofd,
   end.
 Proof. exact sz_frames_agree. Qed.
 Print Assumptions C07_oracle_is_the_model.
+
+(** ... and its delivered byte count and verdict are those of the byte-level
+    receiver (also when frames do not open: the receiver stops at the first
+    failure). *)
+Theorem C07_oracle_delivery_is_the_model : forall pa k ctr expect blocks eofd,
+  expect <= ctr -> trailer_silent pa = true ->
+  match run pa k ctr blocks eofd, sz_run pa (map blen blocks) eofd with
+  | Some o, Some (_, d, ok) =>
+      let st := receive pa k expect (o_frames o) in
+      blen (r_out st) = d /\ ok = negb (o_error o) && negb (r_closed st)
+  | None, None => True
+  | _, _ => False
+  end.
+Proof. exact sz_delivery_agree. Qed.
+Print Assumptions C07_oracle_delivery_is_the_model.
